@@ -25,7 +25,7 @@ PRIM_RULE = ("every compiled layout (90 quick: all 8-bit layouts + boundary frac
              "boundary alphabet otherwise; floats: every exponent (f32; f64 thorough, quick: +-140 around the bias and the extremes) x "
              "structured mantissas x both signs, incl. zeros, subnormals, largest finite binade, infinities, NaNs; comparisons also against the floor of the value +-1 (integers) and the nearest float +-1, +-2 ulp; float -> fixed conversions also on floats related to the layout ((4v + q)/4 ulp for q = -3..3 around the extremes, 0, 1 and every ninth boundary value, with their float neighbours); From / LossyFrom existence and value for every one of the 506 layouts also in the quick tier (probe-only table, with float conversions and comparisons on thin sets), LossyFrom between primitives; ")
 
-TRANS_RULE = """type pairs S->D: I9F23, I9F55, I16F48, I32F32, I41F23, I9F119, I40F88, I64F64, I96F32, I105F23 onto themselves, I9F23->{I32F32, I64F64, I9F55, I10F54, I96F32}, I32F32->I64F64, I16F48->I40F88, and for sqrt U9F23, U9F55, U32F32, U9F119, U64F64, U96F32, U105F23, U9F23->U64F64, U32F32->U96F32; operands: boundary alphabet, integers 0..300 and halves, neighbourhoods of 1 and 2, 1 +- 2^-k for every k, the representable neighbours of 2^(k + j/8) in every octave (thorough j/32), a grid of 2^g values per octave over the whole range of the type (g = 5 quick / 9 thorough; 3 / 7 for 128-bit sources), both signs; thorough: every one of the 2^32 bit patterns of I9F23 and U9F23; second engine (transx): every other supported layout onto itself (all 64-bit types with 9..41 integer bits and all 128-bit types with 9..105 integer bits: 121 further signed pairs, 134 unsigned ones for sqrt), 57 widening pairs (I9F23 into every supported 64-bit layout and 12 128-bit ones; six 64-bit sources into the 128-bit layouts with equal fractional bits, equal integer bits and in between), 9 unsigned-to-signed pairs, with thinner operand sets in the quick tier (boundary alphabet, integers 0..20, neighbours of 2^(k + j/4), 2 grid values per octave; pow/powi on every 7th/11th of those plus the essential values) and the quick-tier sets above in the thorough tier; """
+TRANS_RULE = """type pairs S->D: I9F23, I9F55, I16F48, I32F32, I41F23, I9F119, I40F88, I64F64, I96F32, I105F23 onto themselves, I9F23->{I32F32, I64F64, I9F55, I10F54, I96F32}, I32F32->I64F64, I16F48->I40F88, and for sqrt U9F23, U9F55, U32F32, U9F119, U64F64, U96F32, U105F23, U9F23->U64F64, U32F32->U96F32; operands: boundary alphabet, integers 0..300 and halves, neighbourhoods of 1 and 2, 1 +- 2^-k for every k, (m/2)^2 +- {0, 1, 2, m-1, m, m+1, 2m, 3m-1, 3m, 10m} ulp for sqrt, dyadic-logarithm bases for pow, the representable neighbours of 2^(k + j/8) in every octave (thorough j/32), a grid of 2^g values per octave over the whole range of the type (g = 5 quick / 9 thorough; 3 / 7 for 128-bit sources), both signs; thorough: every one of the 2^32 bit patterns of I9F23 and U9F23; second engine (transx): every other supported layout onto itself (all 64-bit types with 9..41 integer bits and all 128-bit types with 9..105 integer bits: 121 further signed pairs, 134 unsigned ones for sqrt), 57 widening pairs (I9F23 into every supported 64-bit layout and 12 128-bit ones; six 64-bit sources into the 128-bit layouts with equal fractional bits, equal integer bits and in between), 9 unsigned-to-signed pairs, with thinner operand sets in the quick tier (boundary alphabet, integers 0..20, neighbours of 2^(k + j/4), 2 grid values per octave; pow/powi on every 7th/11th of those plus the essential values) and the quick-tier sets above in the thorough tier; """
 TRIG_RULE = ("types I9F23, I9F55, I16F48, I32F32, I41F23, I9F119, I40F88, I64F64, I96F32, I105F23 (second engine: the other 121 supported 64- and 128-bit layouts, quick tier with a 2^-2 grid and a reduced neighbourhood set); angles: every multiple of 2^-5 (thorough 2^-10) in [-200, 200] "
              "([-100, 100] for tan), boundary alphabet inside the range, the neighbourhood (0, +-1, +-2, +-100 ulp, +-2^-m for m = 1..24) of each multiple of pi/2 up "
              "to 130 pi/2; thorough: every I9F23 angle in the range (3.36e9 for sin and cos, 1.68e9 for tan); ")
@@ -131,7 +131,7 @@ PROPS = {
         "require": [('Display:body', 'value'), ('UpperHex:body', 'value'), ('Display:round-trip', 'value'), ('all:flags', 'value')],
         "title": "formatting is faithful: printed digits are the rounded value and round-trip",
         "stages": [{"driver": "text"}],
-        "rule": ("all 506 layouts: every value of the 8-bit layouts (thorough: 16-bit too), boundary alphabet and values next to round decimals otherwise x "
+        "rule": ("all 506 layouts: every value of the 8-bit layouts (thorough: 16-bit too), boundary alphabet, values next to round decimals and values with a decimal-structured integer part (10^k and neighbours, d * 10^k, 10^k + 10^j, ...) otherwise x "
                  "{Display, Debug, Binary, Octal, LowerHex, UpperHex} x 16 precisions (none, 0..200): digits compared with the exact expansion rounded half-even "
                  "at the number of digits printed, exactness for power-of-two radices, Display -> FromStr round trip; and for a fixed value set per layout the "
                  "full product of 6 traits x {+} x {#} x {0} x 7 alignment/fill x 6 widths x 3 precisions against the padding rule pad(sign ++ prefix ++ body) (Display of Wrapping<F> rendered next to it and required to be identical), the Display round trip also on the values the decimal literal families of the parsing check round to, and three specs per trait written into sinks that refuse after k bytes (no unwinding); "
